@@ -24,14 +24,22 @@ EPOCH = datetime(1970, 1, 1, tzinfo=timezone.utc)
 N_TICKS = 10  # horizon in periods
 
 
+def mk_align(kind, period):
+    if kind == "tz":
+        # a time-zone aware align_to in a zone whose UTC offset is not a multiple of the period
+        tz = timezone(timedelta(hours=5, minutes=30, seconds=0.25 * period))
+        return datetime(2000, 1, 1, 12, 0, 0, tzinfo=tz)
+    return {"none": None, "epoch": EPOCH, "epoch+quarter": EPOCH + timedelta(seconds=0.25 * period),
+            "future": T0_WALL + timedelta(days=1)}[kind]
+
+
 def run_case(period, align_kind, phase_f, lates, sink_lat, add_at):
     """lates: {tick index: lateness in periods}; sink_lat: {(series, k-th sample): latency in periods};
     add_at: {series name: tick index after which it is added (0 = before resample() starts)}."""
     P = timedelta(seconds=period)
     phase = phase_f * period
     wall0 = T0_WALL + timedelta(seconds=phase)
-    align = {"none": None, "epoch": EPOCH, "epoch+quarter": EPOCH + timedelta(seconds=0.25 * period),
-             "future": T0_WALL + timedelta(days=1)}[align_kind]
+    align = mk_align(align_kind, period)
     with virtual_loop(wall=True, wall0=wall0) as loop:
         cfg = ResamplerConfig(resampling_period=P, align_to=align)
         r = Resampler(cfg)
@@ -161,8 +169,7 @@ def run_actor_case(period, align_kind, phase_f, lates, sub_at):
 
     P = timedelta(seconds=period)
     wall0 = T0_WALL + timedelta(seconds=phase_f * period)
-    align = {"none": None, "epoch": EPOCH, "epoch+quarter": EPOCH + timedelta(seconds=0.25 * period),
-             "future": T0_WALL + timedelta(days=1)}[align_kind]
+    align = mk_align(align_kind, period)
     with virtual_loop(wall=True, wall0=wall0) as loop:
         reg = ChannelRegistry(name="verif")
         ds_req = Broadcast(name="data-sourcing-requests")
@@ -313,12 +320,12 @@ def _dispatch(args):
 def run(tier: str, seed: int, workers: int):
     shards = []
     for period in (1.0, 2.0):
-        for align_kind in ("none", "epoch", "epoch+quarter"):
-            for phase_f in (0.0, 1.0 / 3.0, 0.75):
+        for align_kind in ("none", "epoch", "epoch+quarter", "tz"):
+            for phase_f in (0.0, 0.0004, 1.0 / 3.0, 0.75):
                 shards.append(("actor", tier, period, align_kind, phase_f))
     for period in (1.0, 2.0):
-        for align_kind in ("none", "epoch", "epoch+quarter", "future"):
-            for phase_f in (0.0, 0.25, 1.0 / 3.0, 0.5, 0.75):
+        for align_kind in ("none", "epoch", "epoch+quarter", "future", "tz"):
+            for phase_f in (0.0, 0.0004, 0.25, 1.0 / 3.0, 0.5, 0.75, 0.9996):
                 shards.append((tier, period, align_kind, phase_f))
     if seed:
         import random
@@ -326,12 +333,13 @@ def run(tier: str, seed: int, workers: int):
         random.Random(seed).shuffle(shards)
     acc = pmap_acc(_dispatch, shards, workers)
     meta = {
-        "rule": "2 periods x 4 align_to settings (None, epoch, epoch + quarter period, a future instant) x 5 creation phases relative to the "
-        "grid (incl. exactly aligned) x series added before start / after tick k (2-3 series) x every deviation set with at most "
+        "rule": "2 periods x 5 align_to settings (None, epoch, epoch + quarter period, a future instant, an instant given in a time zone whose "
+        "UTC offset is not a multiple of the period) x 7 creation phases relative to the grid (exactly aligned, 400 us after and before a "
+        "grid point, 1/4, 1/3, 1/2, 3/4) x series added before start / after tick k (2-3 series) x every deviation set with at most "
         "1 (quick: plus selected pairs) / 2 (thorough) deviations among: timer wake-up k late by 0.3 / 1 / 1.5 / 3.2 periods, sink call k "
         "taking 0.5 / 1 / 2.5 periods; horizon 10 periods; non-trivial = at least one deviation; plus the real "
         "ComponentMetricsResamplingActor (subscriptions through its request channel, before the first tick or after tick k; outputs read "
-        "from the registry channels) for 18 configurations x timer-lateness sets",
+        "from the registry channels) for 32 configurations x timer-lateness sets",
         "assumptions": [
             "resample() is re-invoked whenever it returns or raises, as ComponentMetricsResamplingActor does (an IndexError raised when a "
             "series is added while a gather over slow sinks is in flight is counted, not flagged)",
